@@ -198,6 +198,9 @@ func init() {
 		Units: func(tier string) []core.Unit {
 			var us []core.Unit
 			maxS := 3*strChunk + 40
+			if tier == "thorough" {
+				maxS = 5*strChunk + 40
+			}
 			for ci, cl := range strClasses {
 				_ = ci
 				cl := cl
@@ -220,9 +223,13 @@ func init() {
 			us = append(us, core.Unit{Name: "str-boundary-mixed", Cost: 30, Run: func(c *core.Ctx) {
 				wides := []string{"é", "中", "😀"}
 				bounds := []int{strChunk, 2 * strChunk, 3 * strChunk}
-				_ = tier
+				span := 3
+				if tier == "thorough" {
+					bounds = append(bounds, 4*strChunk, 5*strChunk)
+					span = 16
+				}
 				for _, b := range bounds {
-					for off := -3; off <= 3; off++ {
+					for off := -span; off <= span; off++ {
 						for _, w := range wides {
 							pos := b + off
 							for _, total := range []int{pos + 1, pos + 2, b + 10, 3*strChunk + 40} {
@@ -249,6 +256,9 @@ func init() {
 				c.Cover("str-boundary")
 			}})
 			maxB := 3*binChunk + 40
+			if tier == "thorough" {
+				maxB = 5*binChunk + 40
+			}
 			pats := []struct {
 				name string
 				f    func(i int) byte
@@ -276,7 +286,7 @@ func init() {
 				}
 			}
 			us = append(us, core.Unit{Name: "positions", Cost: 30, Run: func(c *core.Ctx) {
-				lens := []int{0, 1, 15, 16, 31, 32, 1023, 1024, 2047, 2048, 2049, 4095, 4096, 4097, 6144, 6145, 8192, 8193}
+				lens := []int{0, 1, 15, 16, 31, 32, 1023, 1024, 2047, 2048, 2049, 4095, 4096, 4097, 4112, 4600, 5119, 5120, 6144, 6145, 8192, 8193, 8292}
 				for _, n := range lens {
 					for _, cl := range strClasses {
 						b := make([]byte, n)
